@@ -195,6 +195,11 @@ func (e *Engine) verifyUnit(name string) (err error) {
 	if fn == nil || len(fn.Blocks) == 0 {
 		return fmt.Errorf("contract-target-missing: function %s not found in the repository", name)
 	}
+	if fn.Synthetic != "" && strings.HasPrefix(name, "(*") && !e.sweepOnly {
+		// the contract is for a method with a pointer receiver; what is left is the compiler's wrapper around a method
+		// that now takes its receiver by value (and so works on a copy of the object)
+		return fmt.Errorf("contract-target-missing: %s is no longer declared with a pointer receiver (%s)", name, fn.Synthetic)
+	}
 	defer func() {
 		if r := recover(); r != nil {
 			if s, ok := r.(string); ok {
